@@ -99,13 +99,14 @@ macro_rules! impl_datatype_hash {
                         2u8.hash(state);
                         (v.0 as f64).to_bits().hash(state);
                     }
+                    // `+ 0.0` maps -0.0 to 0.0: the two compare equal, so they must hash alike
                     Self::Float(v) => {
                         2u8.hash(state);
-                        (v.0 as f64).to_bits().hash(state);
+                        (v.0 as f64 + 0.0).to_bits().hash(state);
                     }
                     Self::Double(v) => {
                         2u8.hash(state);
-                        v.0.to_bits().hash(state);
+                        (v.0 + 0.0).to_bits().hash(state);
                     }
                     Self::Blob(b) => {
                         3u8.hash(state);
